@@ -40,7 +40,9 @@ CHECKS = {
              "per-task perfect-estimate theorems in Props/C02_<Task>.lean; oracle: evaluate(x, copy(x)) on "
              "non-degenerate x for all 13 tasks must give the optimum of every score.",
         note="Non-degeneracy predicates are those of the statement (>= 5 beats, a voiced frame, an in-gamut chord, a "
-             "reference triple for hierarchy, two labels at frame level for NCE). Beat heuristics and entropy scores: "
+             "reference triple for hierarchy - stated on the input by C02_Hierarchy.tmeasure_self_iff / lmeasure_self_iff: "
+             "some query frame has two frames in its window at different LCA / meet depths -, two labels at frame "
+             "level for NCE). Beat heuristics and entropy scores: "
              "oracle + correspondence unless a task theorem is listed in the evidence.",
         design="§5 C02"),
     "C06": dict(
@@ -186,7 +188,9 @@ CHECKS = {
         text="Lean 4 proofs for all inputs: _count_inversions = #{(x,y) | x >= y}, _compare_frame_rankings = "
              "(#triples - #correct, #triples) for both transitive settings, the window slice minus the query is the "
              "window, _gauc equals the brute-force triplet definition and lies in [0,1], lca/meet specs, "
-             "tmeasure/lmeasure equal the definition with roles exchanged for precision, parameter rejections; "
+             "tmeasure/lmeasure equal the definition with roles exchanged for precision, parameter rejections, the "
+             "self-score is (1,1,1) iff some query frame has two window frames at related LCA / meet depths "
+             "(C02_Hierarchy.tmeasure_self_iff, lmeasure_self_iff); "
              "exact rational correspondence; brute-force triple enumeration oracle.",
         note="The finding (tmeasure / lmeasure raised IndexError when a query window holds exactly one frame) was repaired; the "
              "totality theorems now hold without exception.",
